@@ -414,6 +414,34 @@ var shapeKinds = map[string]string{
 	"flat": "isbis", "emb1": "isis", "emb2": "iibis", "iface": "iis", "ifacenil": "i", "dup": "iis", "allopt": "isb",
 }
 
+// serialisation cases for the embedding-aware codec (what extension profiles marshal through):
+// shapes x random values (zero values behind set pointers included) x subsets of set fields
+func genSerLines(r *rng, n int, withJSON bool, emit func(string)) {
+	names := []string{"flat", "emb1", "emb2", "iface", "ifacenil", "dup", "allopt"}
+	for _, name := range names {
+		kinds := shapeKinds[name]
+		allNil := make([]string, len(kinds))
+		for i := range allNil {
+			allNil[i] = "_"
+		}
+		emit("SER " + name + " " + strings.Join(allNil, " "))
+		if withJSON {
+			emit("SERJ " + name + " " + strings.Join(allNil, " "))
+		}
+		for i := 0; i < n; i++ {
+			vals := make([]string, len(kinds))
+			for j := range vals {
+				vals[j] = randVal(kinds[j], r, true)
+			}
+			line := name + " " + strings.Join(vals, " ")
+			emit("SER " + line)
+			if withJSON {
+				emit("SERJ " + line)
+			}
+		}
+	}
+}
+
 func genC15(tier string, seed uint64, emit func(string)) {
 	r := &rng{s: seed}
 	// 1. header: every entry count around the boundaries, plus larger ones
